@@ -90,11 +90,11 @@ pub fn case_strategy() -> impl Strategy<Value = PatchCase> {
         0u8..4,
         any::<bool>(),
         prop_oneof![
-            5 => Just(LogSel::Folder),
+            4 => Just(LogSel::Folder),
             3 => Just(LogSel::Files),
-            1 => Just(LogSel::Identity),
-            1 => Just(LogSel::Account),
-            1 => Just(LogSel::Device),
+            2 => Just(LogSel::Identity),
+            2 => Just(LogSel::Account),
+            2 => Just(LogSel::Device),
         ],
         prop_oneof![2 => Just(false), 1 => Just(true)],
         0u8..4,
@@ -194,6 +194,19 @@ async fn run_case(c: &PatchCase, info: &mut CaseInfo) -> CheckResult {
     apply_edit(&mut w, 0, &Edit::CreateSecret { folder: 0, label: "one".into(), text: "1".into() }).await?;
     for i in 0..c.depth {
         apply_edit(&mut w, 0, &Edit::UpdateSecret { sec: 0, label: "one".into(), text: format!("d{i}") }).await?;
+    }
+    // depth for the addressed log as well, so that rewinds on it remove several records
+    for i in 0..(c.depth % 4) {
+        let e = match c.log {
+            LogSel::Device => Some(Edit::TrustDevice { key: i % 3 }),
+            LogSel::Account => Some(Edit::RenameAccount { name: format!("n{i}") }),
+            LogSel::Identity => Some(Edit::CreateFolder { name: format!("f{i}") }),
+            // the file log gets its depth from the init-diff prefill below
+            LogSel::Files | LogSel::Folder => None,
+        };
+        if let Some(e) = e {
+            apply_edit(&mut w, 0, &e).await?;
+        }
     }
     for _ in 0..2 {
         w.sync(0).await.map_err(|e| Failure::new("harness/initial-sync", format!("initial sync failed: {e}")))?;
